@@ -16,6 +16,8 @@ import time
 ROOT = os.path.dirname(os.path.dirname(os.path.abspath(__file__)))
 SPEC = os.path.join(ROOT, "spec")
 REPO = os.environ.get("VERIF_REPO", "/repo")
+# where evidence/ and replay/ are written; only ad-hoc runs against a scratch tree (seeded changes) redirect it
+OUT = os.environ.get("VERIF_OUT") or os.path.dirname(os.path.dirname(os.path.abspath(__file__)))
 PY = "/venv/bin/python"
 NCPU = os.cpu_count() or 4
 
@@ -224,7 +226,7 @@ class Report:
             self.violations.append((key, replay))
 
     def finish(self, level, coverage, assumptions=()):
-        rdir = os.path.join(ROOT, "replay", self.prop)
+        rdir = os.path.join(OUT, "replay", self.prop)
         os.makedirs(rdir, exist_ok=True)
         for k, text in self.findings.open.items():
             if k in self.known_hit:
@@ -261,8 +263,8 @@ class Report:
             "wall_s": round(time.time() - self.t0, 2),
             "violations": nviol,
         }
-        os.makedirs(os.path.join(ROOT, "evidence"), exist_ok=True)
-        with open(os.path.join(ROOT, "evidence", self.prop + ".json"), "w") as f:
+        os.makedirs(os.path.join(OUT, "evidence"), exist_ok=True)
+        with open(os.path.join(OUT, "evidence", self.prop + ".json"), "w") as f:
             json.dump(ev, f, indent=1, default=str)
         print("%s %s: %s violation(s), %d known-finding key(s) hit, %.1fs" % (
             self.prop, self.tier, nviol, len(self.known_hit), time.time() - self.t0))
